@@ -278,8 +278,114 @@ func cmdTrunc(args []string) {
 		s.checkLogPrefixes(w, *seed, i, *every)
 		w.close()
 	}
+	s.bigTrunc(*seed)
 	b, _ := json.MarshalIndent(s, "", " ")
 	os.WriteFile(filepath.Join(*out, "summary.json"), b, 0o644)
+}
+
+// bigTrunc: a snapshot whose blocks are larger than the compressor's buffer, so that compressed
+// frames end exactly where a block's state ends (s2 emits a write larger than its block size as
+// frames of its own).  Cuts at every frame boundary (+-2) and at random offsets: a prefix restores
+// with an error or to the complete state, never to some of the blocks.
+func (s *persistSummary) bigTrunc(seed uint64) {
+	// the columns are written in creation order: once with a large column last in the block (the
+	// frame then closes exactly at the block's end), once with a small one last
+	s.bigTruncLayout(seed, []string{"v", "s1", "s2"})
+	s.bigTruncLayout(seed, []string{"s1", "s2", "v"})
+}
+
+func (s *persistSummary) bigTruncLayout(seed uint64, order []string) {
+	rng := NewRng(seed ^ 0xb17)
+	mk := func() *column.Collection {
+		c := column.NewCollection(column.Options{Vacuum: time.Hour, Capacity: 64})
+		for _, n := range order {
+			if n == "v" {
+				c.CreateColumn(n, column.ForInt64())
+			} else {
+				c.CreateColumn(n, column.ForString())
+			}
+		}
+		return c
+	}
+	c := mk()
+	defer c.Close()
+	const rows = 16384 + 300
+	c.Query(func(txn *column.Txn) error {
+		for i := 0; i < rows; i++ {
+			txn.Insert(func(r column.Row) error {
+				b := make([]byte, 150)
+				for j := range b {
+					b[j] = byte('a' + rng.Intn(26))
+				}
+				r.SetString("s1", string(b))
+				r.SetString("s2", string(b[:140]))
+				r.SetInt64("v", int64(i))
+				return nil
+			})
+		}
+		return nil
+	})
+	var file bytes.Buffer
+	if err := c.Snapshot(&file); err != nil {
+		s.Failures = append(s.Failures, "big snapshot failed: "+err.Error())
+		return
+	}
+	data := file.Bytes()
+	set := map[int]bool{}
+	bounds := s2Boundaries(data)
+	for _, b := range bounds {
+		for d := -2; d <= 2; d++ {
+			if k := b + d; k >= 0 && k < len(data) {
+				set[k] = true
+			}
+		}
+	}
+	for i := 0; i < 30; i++ {
+		set[rng.Intn(len(data))] = true
+	}
+	var cuts []int
+	for k := range set {
+		cuts = append(cuts, k)
+	}
+	sort.Ints(cuts)
+	for _, k := range cuts {
+		d := mk()
+		var err error
+		var pan string
+		ok := within(30*time.Second, func() {
+			defer func() {
+				if r := recover(); r != nil {
+					pan = fmt.Sprint(r) + " @ " + shortStack()
+				}
+			}()
+			err = d.Restore(bytes.NewReader(data[:k]))
+		})
+		s.Cuts++
+		desc := fmt.Sprintf("seed %d big snapshot (columns %v, %d rows in 2 blocks, %d bytes, %d compressed frames) cut %d", seed, order, rows, len(data), len(bounds), k)
+		switch {
+		case !ok:
+			s.Failures = append(s.Failures, desc+": Restore did not return")
+		case pan != "":
+			s.Failures = append(s.Failures, desc+": Restore panicked: "+pan)
+		case err != nil:
+			s.Errors++
+		default:
+			s.Clean++
+			if n := d.Count(); n != rows {
+				s.Failures = append(s.Failures, desc+fmt.Sprintf(": Restore of the truncated file succeeded with %d of %d rows (some of the blocks)", n, rows))
+			}
+		}
+		if ok {
+			d.Close()
+		}
+		if len(s.Failures) > 12 {
+			break
+		}
+	}
+	s.Files++
+	s.Sizes = append(s.Sizes, len(data))
+	s.Extra["big_snapshot_frames"] += len(bounds)
+	s.Extra["big_snapshot_cuts"] += len(cuts)
 }
 
 func commitSig(c commit.Commit) string {
@@ -397,6 +503,138 @@ type faultWriter struct {
 }
 
 var errDisk = errors.New("injected write failure")
+
+// within runs f and reports whether it returned before the limit (a call that never returns is
+// abandoned together with whatever it holds)
+func within(limit time.Duration, f func()) bool {
+	done := make(chan struct{})
+	go func() { defer close(done); f() }()
+	select {
+	case <-done:
+		return true
+	case <-time.After(limit):
+		return false
+	}
+}
+
+// bigFault: a collection whose blocks hold more state than the compressor buffers (s2 hands 1 MiB
+// blocks to the destination), so that a failing destination surfaces INSIDE the per-block part of
+// Snapshot and not only at its final flush.  After every failed snapshot the collection must keep
+// working: a transaction touching every block commits, a healthy snapshot restores.
+func bigFault(s *persistSummary, cases *[]string, seed uint64, dense bool) {
+	rng := NewRng(seed ^ 0xb16)
+	c := column.NewCollection(column.Options{Vacuum: time.Hour, Capacity: 64})
+	defer c.Close()
+	c.CreateColumn("v", column.ForInt64())
+	c.CreateColumn("s", column.ForString())
+	const rows = 16384 + 16384 + 500
+	c.Query(func(txn *column.Txn) error {
+		for i := 0; i < rows; i++ {
+			txn.Insert(func(r column.Row) error {
+				b := make([]byte, 90+rng.Intn(40))
+				for j := range b {
+					b[j] = byte('a' + rng.Intn(26))
+				}
+				r.SetInt64("v", int64(i))
+				r.SetString("s", string(b))
+				return nil
+			})
+		}
+		return nil
+	})
+	healthy := &faultWriter{w: io.Discard, failCall: -1, failByte: -1}
+	if err := c.Snapshot(healthy); err != nil {
+		s.Failures = append(s.Failures, "big collection: healthy snapshot failed: "+err.Error())
+		return
+	}
+	type plan struct {
+		call, byt int
+		forever   bool
+	}
+	var plans []plan
+	for k := 0; k < healthy.calls; k++ {
+		if dense || k < 4 || k >= healthy.calls-2 || rng.Chance(30) {
+			plans = append(plans, plan{k, -1, k%2 == 0})
+		}
+	}
+	nb := 6
+	if dense {
+		nb = 60
+	}
+	for j := 0; j < nb; j++ {
+		plans = append(plans, plan{-1, rng.Intn(healthy.n + 1), j%2 == 0})
+	}
+	sumV := func(col *column.Collection) (n int, sum int64) {
+		col.Query(func(txn *column.Txn) error {
+			v := txn.Int64("v")
+			txn.Range(func(uint32) { x, _ := v.Get(); sum += x; n++ })
+			return nil
+		})
+		return
+	}
+	for _, p := range plans {
+		fw := &faultWriter{w: io.Discard, failCall: p.call, failByte: p.byt, forever: p.forever}
+		var err error
+		desc := fmt.Sprintf("seed %d big collection (%d rows, %d bytes, %d write calls) fail(call=%d byte=%d forever=%v)", seed, rows, healthy.n, healthy.calls, p.call, p.byt, p.forever)
+		if !within(60*time.Second, func() { err = c.Snapshot(fw) }) {
+			s.Failures = append(s.Failures, desc+": Snapshot never returned")
+			return
+		}
+		s.Cuts++
+		if fw.failed > 0 && err == nil {
+			s.Failures = append(s.Failures, desc+": the writer failed but Snapshot returned nil")
+		}
+		if fw.failed == 0 && err != nil {
+			s.Failures = append(s.Failures, desc+": Snapshot failed although the writer never did: "+err.Error())
+		}
+		rec := c.VerifRecording()
+		*cases = append(*cases, fmt.Sprintf("(%v, %v, %v)", fw.failed > 0, err != nil, rec))
+		if err != nil {
+			s.Errors++
+		} else {
+			s.Clean++
+		}
+		// transactions commit normally, in every block
+		if !within(20*time.Second, func() {
+			c.Query(func(txn *column.Txn) error {
+				for _, off := range []uint32{3, 16384 + 5, 32768 + 7} {
+					txn.QueryAt(off, func(r column.Row) error { r.MergeInt64("v", 1); return nil })
+				}
+				return nil
+			})
+		}) {
+			s.Failures = append(s.Failures, desc+": a transaction after the failed snapshot never committed")
+			return
+		}
+		var good bytes.Buffer
+		var gerr error
+		if !within(60*time.Second, func() { gerr = c.Snapshot(&good) }) {
+			s.Failures = append(s.Failures, desc+": a later snapshot to a healthy writer never returned")
+			return
+		}
+		if gerr != nil {
+			s.Failures = append(s.Failures, desc+": a later snapshot to a healthy writer failed: "+gerr.Error())
+			continue
+		}
+		d := column.NewCollection(column.Options{Vacuum: time.Hour, Capacity: 64})
+		d.CreateColumn("v", column.ForInt64())
+		d.CreateColumn("s", column.ForString())
+		rerr := d.Restore(&good)
+		n1, s1 := sumV(c)
+		n2, s2 := sumV(d)
+		d.Close()
+		if rerr != nil || n1 != n2 || s1 != s2 {
+			s.Failures = append(s.Failures, desc+fmt.Sprintf(": a later healthy snapshot does not restore to the collection (err=%v, %d/%d rows, sums %d/%d)", rerr, n2, n1, s2, s1))
+		}
+		if len(s.Failures) > 12 {
+			break
+		}
+	}
+	s.Files++
+	s.Sizes = append(s.Sizes, healthy.n)
+	s.Extra["write_calls"] += healthy.calls
+	s.Extra["big_collection_plans"] = len(plans)
+}
 
 func (f *faultWriter) Write(p []byte) (int, error) {
 	call := f.calls
@@ -552,6 +790,7 @@ func cmdFault(args []string) {
 		s.Extra["write_calls"] += healthy.calls
 		w.close()
 	}
+	bigFault(&s, &cases, *seed, *dense)
 	if len(cases) > 0 {
 		txt := "From Coq Require Import List Bool.\nFrom ColumnV Require Import Snap.\nImport ListNotations.\n" +
 			"Definition M := Eval vm_compute in snap_mismatches [\n " + strings.Join(cases, ";\n ") + "].\nPrint M.\n"
